@@ -305,7 +305,8 @@ theorem group_empty_input (options : Fields) (idExpr : Val)
     (hid : dget "_id" options = some idExpr) : Pipe.groupStage (.doc options) [] = .ok [] :=
   Pipe.Proofs.groupStage_empty options idExpr hid
 
-example : dget "_id" [("_id", Val.null), ("n", .doc [("$sum", .int 1)])] = some .null := rfl
+example : dget "_id" [("_id", Val.null), ("n", .doc [("$sum", .int 1)])] = some .null ∧
+    dget "_id" [("_id", Val.int 0), ("n", .doc [("$sum", .int 1)])] = some (.int 0) := ⟨rfl, rfl⟩
 
 /-- on such keys Python's `==` is MongoDB's key equality (the tie of the BSON order) -/
 theorem group_key_equality (a b : Val) (ha : groupKeyOk a = true) (hb : groupKeyOk b = true) :
@@ -958,6 +959,13 @@ theorem pipelineXV_eq_spec_partial (db : Pipe.Db) (p docs : List Val) (v : Verdi
     (hD : pipelineReasonsXV db p docs = []) (hs : specPipelineXV db p docs = some v) :
     v.agrees (Pipe.runPipeline db p docs) :=
   Pipe.Proofs.pipelineXV_eq_spec db p docs v hD hs
+
+example : pipelineReasonsXV db [.doc [("$group", groupSpec)], .doc [("$limit", .int 0)]] sample = [] ∧
+    (match specPipelineXV db [.doc [("$group", groupSpec)], .doc [("$limit", .int 0)]] sample with
+     | some .rejected => true | _ => false) = true ∧
+    pipelineReasonsXV db [.doc [("$group", groupSpec)], .doc [("$limit", .int 2)]] sample = [] ∧
+    (match specPipelineXV db [.doc [("$group", groupSpec)], .doc [("$limit", .int 2)]] sample with
+     | some (.docs out) => out.length == 2 | _ => false) = true := by decide +kernel
 
 def pipeX : List Val :=
   [.doc [("$match", .doc [("a", .doc [("$gt", .int 1)])])],
